@@ -3,6 +3,7 @@ package main
 import (
 	"fmt"
 	"go/types"
+	"os"
 	"sort"
 	"strings"
 )
@@ -63,6 +64,7 @@ type Obligation struct {
 	Model   string
 	Output  string
 	Replay  *ReplaySpec
+	Pre     bool     // already decided during VC generation
 	Extra   []string // instances of quantified hypotheses relevant to this goal
 }
 
@@ -93,6 +95,9 @@ type VC struct {
 	defOf    map[string]string // define-fun name -> its term
 	sortOf   map[string]string // declared / defined name -> sort
 	consts   map[string]string // heap locations known to hold a literal
+	allocRefs map[string]bool // ref terms of objects allocated in this VC
+	shadow   map[string]*SV  // interface values stored at constant cells of local objects (metadata only)
+	boxedTypes []types.Type // concrete types put into interfaces so far (candidates for loaded interface values)
 	hyps     []*hyp // quantified hypotheses, instantiated per obligation
 	instantiating bool
 	bound    []string // names of quantifier-bound variables currently in scope
@@ -386,4 +391,37 @@ func (vc *VC) arraySort(x *sexp) string {
 		}
 	}
 	return ""
+}
+
+// infeasible asks the solver (at VC-generation time) whether a branch
+// condition is unsatisfiable in the current context; dead dispatch
+// alternatives are then not executed at all. The query is recorded as a
+// discharged obligation of kind "dead-branch" so that it is visible in the
+// evidence like every other solver-backed step.
+func (vc *VC) infeasible(cond, note string) bool {
+	if cond == "false" {
+		return true
+	}
+	if cond == "true" {
+		return false
+	}
+	idx := vc.counts["dead-branch"]
+	o := &Obligation{Name: fmt.Sprintf("%s::dead-branch[%d]", vc.Name, idx), Kind: "dead-branch", Goal: not(cond), Prefix: len(vc.lines), VC: vc, Note: note, Tags: []string{"@dispatch"}}
+	f, err := os.CreateTemp("/var/tmp", "govc-feas-*.smt2")
+	if err != nil {
+		return false
+	}
+	defer os.Remove(f.Name())
+	f.WriteString(o.script(nil))
+	f.Close()
+	r := race(f.Name(), 3, 0, solvers[:1])
+	if r.status != "unsat" {
+		return false
+	}
+	vc.counts["dead-branch"]++
+	o.Status, o.Solver, o.Ms = "discharged", r.solver, r.ms
+	o.Pre = true
+	vc.obls = append(vc.obls, o)
+	vc.assume(not(cond))
+	return true
 }
